@@ -22,7 +22,7 @@
 (* the records after it that state no TTL.                                    *)
 EXTENDS ZoneLex, FiniteSets
 
-Cat(cs) == FoldLeft(LAMBDA a, c : a \o c, "", cs)     \* characters -> string
+Cat(cs) == FoldLeft(LAMBDA a, c : a \o c, "", cs)     \* characters (or strings) -> string, by a loop
 
 UpperS == "ABCDEFGHIJKLMNOPQRSTUVWXYZ"
 LowerS == "abcdefghijklmnopqrstuvwxyz"
@@ -122,7 +122,7 @@ AtomNormal(kind, s) == (CHOOSE a \in AtomTable : a[1] = kind /\ a[2] = s)[3]
 
 \* ---------------------------------------------------------------------------
 \* RDATA shapes: fixed field kinds, then `rest` repeated at least `min` times.
-\* kinds: name str u8 u16 u32 and the atom kinds a4 a6 hex b64 tag par
+\* kinds: name str flags u8 u16 u32 i32 and the atom kinds a4 a6 hex b64 tag par
 Shape(fix, rest, min) == [fix |-> fix, rest |-> rest, min |-> min]
 TypeShape == [
     A     |-> Shape(<<"a4">>, "", 0),
@@ -132,11 +132,11 @@ TypeShape == [
     PTR   |-> Shape(<<"name">>, "", 0),
     ANAME |-> Shape(<<"name">>, "", 0),
     MX    |-> Shape(<<"u16", "name">>, "", 0),
-    SOA   |-> Shape(<<"name", "name", "u32", "u32", "u32", "u32", "u32">>, "", 0),
+    SOA   |-> Shape(<<"name", "name", "u32", "i32", "i32", "i32", "u32">>, "", 0),
     TXT   |-> Shape(<<>>, "str", 1),
     SRV   |-> Shape(<<"u16", "u16", "u16", "name">>, "", 0),
     HINFO |-> Shape(<<"str", "str">>, "", 0),
-    NAPTR |-> Shape(<<"u16", "u16", "str", "str", "str", "name">>, "", 0),
+    NAPTR |-> Shape(<<"u16", "u16", "flags", "str", "str", "name">>, "", 0),
     CAA   |-> Shape(<<"u8", "tag", "str">>, "", 0),
     SSHFP |-> Shape(<<"u8", "u8", "hex">>, "", 0),
     TLSA  |-> Shape(<<"u8", "u8", "u8", "hex">>, "", 0),
@@ -162,15 +162,26 @@ StrField(r, it) ==
     [st |-> r.st, val |-> <<r.val>>,
      tags |-> (IF it.q THEN {"str-quoted"} \cup (IF it.p THEN {"str-quoted-in-paren"} ELSE {})
                ELSE {"str-unquoted"} \cup (IF r.esc THEN {"str-unquoted-escape"} ELSE {})
-                                     \cup (IF it.v[1] = "$" THEN {"str-unquoted-dollar"} ELSE {}))]
-NumLen(kind) == CASE kind = "u8" -> 2 [] kind = "u16" -> 4 [] OTHER -> 9
+                                     \cup (IF it.v[1] = "$" THEN {"str-unquoted-dollar"} ELSE {})
+                                     \cup (IF it.v[1] = "@" THEN {"str-unquoted-at"} ELSE {}))]
+\* a number certainly in range of its field (so that no arithmetic on strings is needed):
+\* up to 2/4/9 digits, or one digit more with a leading digit that keeps it below the limit
+AlnumOnly(f) ==
+    IF f.st = "ok" /\ \A i \in 1..Len(f.val[1]) : SubSeq(f.val[1], i, i) \in LetterCh \cup DigitCh THEN f ELSE NoField
+NumOK(kind, cs) ==
+    /\ AllDigits(cs) /\ (cs[1] = "0" => Len(cs) = 1)
+    /\ CASE kind = "u8"  -> Len(cs) <= 2 \/ (Len(cs) = 3 /\ cs[1] = "1")
+         [] kind = "u16" -> Len(cs) <= 4 \/ (Len(cs) = 5 /\ cs[1] \in {"1", "2", "3", "4", "5"})
+         [] kind = "u32" -> Len(cs) <= 9 \/ (Len(cs) = 10 /\ cs[1] \in {"1", "2", "3"})
+         [] OTHER        -> Len(cs) <= 9 \/ (Len(cs) = 10 /\ cs[1] = "1")      \* i32, ttl
 AtomField(kind, s) ==
     IF <<kind, s>> \in AtomKey THEN [st |-> "ok", val |-> <<AtomNormal(kind, s)>>, tags |-> {}] ELSE NoField
 ParseField(kind, it, origin, type) ==
     CASE kind = "name" -> IF it.q THEN NoField ELSE NameField(ParseName(it.v, origin), it, type)
       [] kind = "str"  -> StrField(ParseStr(it), it)
-      [] kind \in {"u8", "u16", "u32"} ->
-            IF ~it.q /\ IsNumber(it.v, NumLen(kind)) THEN [st |-> "ok", val |-> <<Cat(it.v)>>, tags |-> {}] ELSE NoField
+      [] kind = "flags" -> AlnumOnly(StrField(ParseStr(it), it))          \* RFC 3403 4.1: flags are A-Z, 0-9
+      [] kind \in {"u8", "u16", "u32", "i32"} ->
+            IF ~it.q /\ NumOK(kind, it.v) THEN [st |-> "ok", val |-> <<Cat(it.v)>>, tags |-> {}] ELSE NoField
       [] OTHER -> IF it.q THEN NoField ELSE AtomField(kind, Cat(it.v))
 
 \* all RDATA items of one RR.  Result [st, rd, tags]
@@ -204,7 +215,7 @@ RRHead(its, i, ttl, class, ti, ci) ==
     ELSE LET it == its[i] w == Word(it) IN
          IF ~Plain(it) THEN [st |-> "unspec", why |-> "quoted or escaped item before the type"]
          ELSE IF AllDigits(it.v) THEN
-                 IF ti # 0 \/ ~IsNumber(it.v, 9) THEN [st |-> "unspec", why |-> "ttl"] ELSE RRHead(its, i + 1, w, class, i, ci)
+                 IF ti # 0 \/ ~NumOK("ttl", it.v) THEN [st |-> "unspec", why |-> "ttl"] ELSE RRHead(its, i + 1, w, class, i, ci)
          ELSE IF w \in ClassNames THEN
                  IF ci # 0 THEN [st |-> "unspec", why |-> "two classes"] ELSE RRHead(its, i + 1, ttl, w, ti, i)
          ELSE IF w \in TypeNames THEN [st |-> "ok", ttl |-> ttl, class |-> class, type |-> w, next |-> i + 1, ti |-> ti, ci |-> ci]
@@ -217,7 +228,7 @@ RRTags(C, ln, own, h, rd) ==
     \cup {IF h.ttl = "" THEN (IF C.ttlDef # "" THEN "ttl-from-$TTL" ELSE "ttl-from-last") ELSE "ttl-explicit"}
     \cup {IF h.class = "" THEN "class-inherited" ELSE "class-explicit"}
     \cup (IF h.ti # 0 /\ h.ci # 0 THEN {IF h.ti < h.ci THEN "order-ttl-class" ELSE "order-class-ttl"} ELSE {})
-    \cup (IF \E i \in 1..(h.next - 1) : ln.items[i].p THEN {"paren-before-type"} ELSE {})
+    \cup (IF ln.items[h.next - 1].pb \/ ln.items[h.next - 1].p THEN {"paren-before-type"} ELSE {})
     \cup (IF \E i \in h.next..Len(ln.items) : ln.items[i].p THEN {"paren-rdata"} ELSE {})
     \cup {"type-" \o h.type}
 
@@ -244,7 +255,7 @@ RRLine(C, ln) ==
             ELSE IF ln.items[1].q THEN NoName
             ELSE ParseName(ln.items[1].v, C.origin))
 
-DirParen(ln) == IF \E i \in 1..2 : ln.items[i].p THEN {"paren-directive"} ELSE {}
+DirParen(ln) == IF \E i \in 1..2 : ln.items[i].p \/ ln.items[i].pb THEN {"paren-directive"} ELSE {}
 OriginLine(C, ln, r) ==
     IF r.st # "ok" THEN Fail(C, "unspec", "$ORIGIN name")
     ELSE [C EXCEPT !.origin = r.name, !.tags = @ \cup {"$ORIGIN-" \o r.form} \cup DirParen(ln)]
@@ -253,7 +264,7 @@ Directive(C, ln, d) ==
             IF Len(ln.items) # 2 \/ ln.items[2].q \/ ln.items[2].v = <<"@">> THEN Fail(C, "unspec", "$ORIGIN arguments")
             ELSE OriginLine(C, ln, ParseName(ln.items[2].v, C.origin))
       [] d = "$TTL" ->
-            IF Len(ln.items) # 2 \/ ln.items[2].q \/ ~IsNumber(ln.items[2].v, 9) THEN Fail(C, "unspec", "$TTL arguments")
+            IF Len(ln.items) # 2 \/ ln.items[2].q \/ ~NumOK("ttl", ln.items[2].v) THEN Fail(C, "unspec", "$TTL arguments")
             ELSE [C EXCEPT !.ttlDef = Word(ln.items[2]), !.tags = @ \cup {"$TTL"} \cup DirParen(ln)]
       [] OTHER -> Fail(C, "unspec", "$INCLUDE or unknown directive")
 Line(C, ln) ==
@@ -278,12 +289,12 @@ ZoneLoadable(rs, apex) ==
 
 AnyParen(lines) == \E i \in DOMAIN lines : \E k \in DOMAIN lines[i].items : lines[i].items[k].p
 ReadDone(C, lx) ==
-    IF C.st # "ok" THEN [st |-> C.st, why |-> C.why, recs |-> {}, tags |-> {}, ctx |-> C]
-    ELSE IF ~WellFormed(C.recs) THEN [st |-> "unspec", why |-> "record set not well-formed", recs |-> {}, tags |-> {}, ctx |-> C]
+    IF C.st # "ok" THEN [st |-> C.st, why |-> C.why, recs |-> {}, tags |-> lx.tags, ctx |-> C]
+    ELSE IF ~WellFormed(C.recs) THEN [st |-> "unspec", why |-> "record set not well-formed", recs |-> {}, tags |-> lx.tags, ctx |-> C]
     ELSE [st |-> "ok", why |-> "", recs |-> RangeOf(C.recs),
           tags |-> C.tags \cup (IF AnyParen(lx.lines) THEN {"paren"} ELSE {}), ctx |-> C]
 ReadLines(lx, origin) ==
-    IF lx.st # "ok" THEN [st |-> lx.st, why |-> lx.why, recs |-> {}, tags |-> {}, ctx |-> CtxInit(origin)]
+    IF lx.st # "ok" THEN [st |-> lx.st, why |-> lx.why, recs |-> {}, tags |-> lx.tags, ctx |-> CtxInit(origin)]
     ELSE ReadDone(FoldLeft(Line, CtxInit(origin), lx.lines), lx)
 
 ReadChars(cs, origin) == ReadLines(LexChars(cs), origin)
